@@ -57,7 +57,9 @@ pub fn kid_is_stream(fam: Fam, i: usize) -> bool {
     }
 }
 
-pub const ARRAY_LENS: [usize; 9] = [0, 1, 2, 3, 4, 5, 8, 13, 257];
+pub const ARRAY_LENS: [usize; 12] = [0, 1, 2, 3, 4, 5, 8, 13, 23, 64, 65, 257];
+/// array lengths at internal boundaries (inline state buffer 22/23, bit-block 64/65), drawn with a small probability
+pub const ARRAY_MID_LENS: [usize; 3] = [23, 64, 65];
 
 /// can this (family, container, n) be built in the current feature configuration?
 pub fn supported(fam: Fam, cont: Cont, n: usize) -> bool {
@@ -209,6 +211,9 @@ macro_rules! arr_dispatch {
             5 => $f::<5>($cid, $v),
             8 => $f::<8>($cid, $v),
             13 => $f::<13>($cid, $v),
+            23 => $f::<23>($cid, $v),
+            64 => $f::<64>($cid, $v),
+            65 => $f::<65>($cid, $v),
             257 => $f::<257>($cid, $v),
             n => unreachable!("array length {n} not instantiated"),
         }
